@@ -583,6 +583,10 @@ class Interp:
         # ---- integers
         if re.search(r"<impl [ui]\d+>::overflowing_sub$|<impl [ui]size>::overflowing_sub$", c): x, y = a(0), a(1); used("overflowing_sub"); return ("val", Agg("tuple", [x - y, z3.ULT(x, y)]))
         if re.search(r"<impl [ui](\d+|size)>::overflowing_add$", c): x, y = a(0), a(1); used("overflowing_add"); return ("val", Agg("tuple", [x + y, z3.ULT(x + y, x)]))
+        if re.search(r"<impl u(\d+|size)>::checked_add$", c):
+            x, y = a(0), a(1); used("checked_add (unsigned)"); return ("val", Enum("Option", z3.If(z3.ULT(x + y, x), BV(64, 0), BV(64, 1)), {1: [x + y]}))
+        if re.search(r"<impl u(\d+|size)>::checked_sub$", c):
+            x, y = a(0), a(1); used("checked_sub (unsigned)"); return ("val", Enum("Option", z3.If(z3.ULT(x, y), BV(64, 0), BV(64, 1)), {1: [x - y]}))
         if re.search(r"<impl u(\d+|size)>::saturating_sub$", c): x, y = a(0), a(1); used("saturating_sub (unsigned)"); return ("val", z3.If(z3.ULT(x, y), BV(x.size(), 0), x - y))
         if re.search(r"<impl u(\d+|size)>::saturating_add$", c): x, y = a(0), a(1); used("saturating_add (unsigned)"); return ("val", z3.If(z3.ULT(x + y, x), BV(x.size(), (1 << x.size()) - 1), x + y))
         if re.search(r"<impl [ui](\d+|size)>::wrapping_sub$", c): used("wrapping_sub"); return ("val", a(0) - a(1))
@@ -696,6 +700,12 @@ class Interp:
             if f is None: raise EncodingError("fetch_update helper missing from the prelude")
             used("Atomic::fetch_update -> load / closure / compare_exchange_weak retry loop (as in std)")
             return ("call", f, [a(0), a(1), a(2), a(3)], None)
+        m = re.search(r"Atomic(?:::<(\w+)>|U32|U64|Bool|Usize)?::(fetch_max|fetch_min|fetch_or|fetch_and|fetch_xor)$", callee)
+        if m and ("atomic::Atomic" in callee or "Atomic::<" in callee or "AtomicU" in callee or "AtomicBool" in callee):
+            p = a(0)
+            if not isinstance(p, Ptr): raise EncodingError("atomic read-modify-write on a non-shared pointer " + sx(p))
+            self.memdecl(p, "atomic " + m.group(2)); used("Atomic::" + m.group(2))
+            return ("vis", ("armw", p.key(), m.group(2), a(1)))
         m = re.search(r"Atomic(?:::<(\w+)>|U32|U64|Bool|Usize)?::(load|store|swap|fetch_add|fetch_sub|compare_exchange|compare_exchange_weak)$", callee)
         if m and ("atomic::Atomic" in callee or "Atomic::<" in callee or "AtomicU" in callee or "AtomicBool" in callee):
             p = a(0)
@@ -760,6 +770,12 @@ class Interp:
             if meth in ("is_none", "is_err"): return ("val", z3.Not(some))
             if meth in ("unwrap", "expect", "unwrap_unchecked"):
                 return ("fork", [(some, ("val", v.payloads[pv][0] if pv in v.payloads else None)), (z3.Not(some), ("panic", "%s::%s on None/Err" % (adt, meth)))])
+            if meth == "ok" and adt == "Result":
+                return ("val", Enum("Option", z3.If(some, BV(64, 1), BV(64, 0)), {1: [v.payloads[0][0]]} if 0 in v.payloads else {}))
+            if meth == "unwrap_or_default":
+                dv = v.payloads[pv][0] if pv in v.payloads else None
+                if not isinstance(dv, z3.ExprRef): raise EncodingError("unwrap_or_default of a non-scalar")
+                return ("val", z3.If(some, dv, BV(dv.size(), 0) if z3.is_bv(dv) else z3.BoolVal(False)))
             if meth == "unwrap_or":
                 dflt = a(1)
                 return ("fork", [(some, ("val", v.payloads[pv][0] if pv in v.payloads else None)), (z3.Not(some), ("val", dflt))])
